@@ -41,7 +41,18 @@ def r1(ctx, R):
             ('self.MS[restart_at].levels[0].u[0]', ('True in restarts',)),
             ('self.MS[active_slots[-1]].levels[0].uend', ('not (True in restarts)',)),
         ])
-        R.check(got == want, f'{cn}.run :: definitions of the carried value `{var}`', w, want, got)
+        if got != want and cn == 'controller_nonMPI':
+            # equivalent spelling through the `last` flag: exactly one step carries it and it is the last ACTIVE one, provided
+            # restart_block clears the flag on the steps outside the block (C14.R10 checks that; re-checked here)
+            alt = sorted([('None', ()), ('self.MS[restart_at].levels[0].u[0]', ('True in restarts',)), ('[S.levels[0].uend for S in self.MS if S.status.last][-1]', ('not (True in restarts)',))])
+            rbn = Normalizer(repo.func(rel, f'{cn}.restart_block'), inline_scalars=False)
+            cleared = sorted(c.describe() for c in rbn.contribs if re.fullmatch(r'self\.MS\[.+\]\.status\.last', c.target) and c.rhs == 'False' and 'not in active_slots' in c.describe())
+            if got == alt and len(cleared) == 1:
+                R.ok(f'{cn}.run :: definitions of the carried value `{var}`', w, found='uend of the step flagged `last` (equivalent: restart_block leaves the flag on the last active step only)')
+            else:
+                R.check(False, f'{cn}.run :: definitions of the carried value `{var}`', w, want, got)
+        else:
+            R.check(got == want, f'{cn}.run :: definitions of the carried value `{var}`', w, want, got)
         rb = [c for c in _calls(fn, 'restart_block')]
         args = sorted(ast.unparse(c.args[2]) if len(c.args) > 2 else '?' for c in rb)
         R.check(args == sorted([u0p, var]), f'{cn}.run :: restart_block receives the caller\'s u0 first, then the carried value', w, [u0p, var], args)
